@@ -4,6 +4,7 @@
   error class of the loader), was written by another version, or describes a test case that now
   passes or is invalid.
 -/
+import RapidModel.Generated.Consts
 import RapidProofs.Shrink
 import RapidModel.Persist
 
@@ -50,5 +51,9 @@ theorem loader_total (bs : Bytes) :
 
 example : loadBytes [103, 97, 114, 98, 97, 103, 101] = .error .badHeader := by rfl
 example : loadBytes [] = .error .noData := by rfl
+
+/-! ### facts re-read from /repo's source on every run -/
+
+theorem version_source : Rapid.Generated.c_rapidVersion = rapidVersion := by decide
 
 end Rapid.C17
